@@ -1,5 +1,6 @@
 #!/bin/bash
 # run_all.sh [quick|thorough] — every property's check in sequence; prints one summary line per property
+set -o pipefail
 tier=${1:-quick}
 rc=0
 for p in C01 C02 C03 C04 C05 C06 C07 C08 C09 C10 C11 C12 C13 C14 C15 C16 C17 C18 C19 C20; do
